@@ -2,6 +2,13 @@ from propcfg.common import *
 from propcfg.tmplcommon import *
 
 CFG = dict(TMPL_C06)
-CFG["proof_modules"] = ["SafeHtml.Proofs.Frozen", "SafeHtml.Proofs.Independence"]
+CFG["proof_modules"] = ["SafeHtml.Proofs.Frozen", "SafeHtml.Proofs.Independence", "SafeHtml.Proofs.IndependenceCalls"]
 CFG["level_text"] = CFG["level_text"] + " Proofs/Independence.lean proves the first half for templates without {{template}} calls: C06_callfree_reachable — in any two reachable worlds in which the same call-free tree is installed under a name not yet analysed, the analysis has the same outcome class and, on success, execution gives the same result for every data (the analysis of a call-free template never reads the memo; the committed tree is a function of the tree alone)."
 CFG["level_note"] = "Not proved: first-analysis independence for templates WITH template calls (needs a memo-correctness invariant; false without excluding the two findings memo-ignores-attr-prefix and mangled-name-collision). C06_statement is kept in Props/C06.lean."
+
+CFG["level_text"] = CFG["level_text"] + (" Proofs/IndependenceCalls.lean extends it to templates WITH calls, one level deep, callees call-free, calls in the plain text "
+    "context, no '$' in the names (C06_textcalls_reachable, and at Api.step level C06_textcalls_step: two reachable worlds, same trees, name not analysed in "
+    "either — same bytes / same error class whatever subset of the callees is already memoized in which world). The invariant behind it (nsinv_reachable) is memo "
+    "correctness in the text context for every reachable world. Kernel-checked counterexamples (namespace Cex) show that both exclusions are necessary: they ARE the "
+    "two listed findings memo-ignores-attr-prefix and mangled-name-collision. Reachability here requires CSPCompatible() to be called before the first execution "
+    "(CspEarly): a later call leaves stale memo entries — a third source of history dependence, outside the histories C06 quantifies over.")
